@@ -427,7 +427,26 @@ func (ev *evalCtx) call(e *SExpr) Val {
 	case "closed":
 		return ghost(ev.read("closed", "Bool", argv(0).T), "Bool")
 	case "chlen":
-		return ghost(ev.read("chlen", "Int", argv(0).T), "Int")
+		cv := argv(0)
+		return ghost(ev.read(chlenArr(cv), "Int", cv.T), "Int")
+	case "lockinv":
+		// lockinv(obj, "lock key"): the conjunction of the lock's invariant clauses for obj
+		if len(e.Args) != 2 || e.Args[1].Op != "str" {
+			return ev.fail("lockinv(obj, \"key\")")
+		}
+		ls := ex.specs.Locks[e.Args[1].Str]
+		if ls == nil {
+			return ev.fail("unknown lock %s", e.Args[1].Str)
+		}
+		self := argv(0)
+		var parts []string
+		for _, c := range ls.Inv {
+			sub := &evalCtx{ex: ex, st: st, fr: ev.fr, extra: map[string]Val{"self": self}, heap: ev.heap, cnt: ev.cnt}
+			v := sub.eval(c.Expr)
+			ev.err = append(ev.err, sub.err...)
+			parts = append(parts, v.T)
+		}
+		return ghost(smtAnd(parts...), "Bool")
 	case "tag":
 		return ghost("(ch_tag "+argv(0).T+")", "Int")
 	case "cap":
@@ -491,6 +510,19 @@ func (ev *evalCtx) call(e *SExpr) Val {
 			return ev.fail("atlock(e)")
 		}
 		if ev.fr.lockSnap == nil {
+			if ev.fr.pseudo {
+				// at a call site the callee's lock-time state is unknown to the caller
+				v := ev.eval(e.Args[0])
+				if v.isComposite() {
+					return ev.fail("atlock of composite at call site")
+				}
+				so := v.S
+				if so == "" {
+					so = "Int"
+				}
+				v.T = st.fresh("atlock", so)
+				return v
+			}
 			return ev.fail("atlock: no Lock executed on this path")
 		}
 		save := ev.heap
